@@ -59,6 +59,7 @@ var sortOverrides = map[string]string{
 	"time.Duration":                                 "Int", // nanoseconds
 	"context.Context":                               "Ctx",
 	"math/big.Int":                                  "Int",
+	"github.com/cosmos/cosmos-sdk/store/prefix.Store": "Str", // a prefix store is represented by its accumulated key prefix
 }
 
 // external structs that are expanded into datatypes
